@@ -562,7 +562,7 @@ def rule_e(ctx: Context, R: Reporter, f):
 
 
 def variants():
-    from ..variants import Variant, alpha_rename, delete_stmt, insert_after, insert_before, replace_expr, replace_stmt
+    from ..variants import Variant, alpha_rename, chain, delete_stmt, insert_after, insert_before, replace_expr, replace_stmt
 
     sm = "tempest/state_manager.py"
     g = "StateManager.compute_logw_and_logz"
@@ -581,6 +581,11 @@ def variants():
         Variant("d-unique-merge", "bad", insert_after(sm, g, "logz_iter = np.asarray(self.get_history('logz'))", "beta, first = np.unique(beta, return_index=True)\nlogz_iter = logz_iter[first]"), ["C04.d", "ANALYSIS-ERROR"]),
         Variant("d-single-iteration-shortcut", "bad", replace_stmt(sm, g, "B = np.logaddexp.reduce(b_weighted, axis=1)", "if beta.size == 1:\n    B = beta[0] * logl_all\nelse:\n    B = np.logaddexp.reduce(b_weighted, axis=1)"), ["C04.d", "C04.b"], quick=True),
         Variant("b-no-normalisation", "bad", replace_stmt(sm, g, "logw = logw - np.logaddexp.reduce(logw)", "logw = logw - np.max(logw)"), ["C04.b"]),
+        # batch sizes produced lazily: same counts, same orientation requirement
+        Variant("f-benign-counts-fromiter", "benign", replace_stmt(sm, g, "n_per_iter = np.array([len(logl_per_iter[t]) for t in range(len(beta))])", "n_per_iter = np.fromiter((len(logl_per_iter[t]) for t in range(len(beta))), dtype=int, count=len(beta))"), quick=True),
+        Variant("f-counts-fromiter-mixture-weight-sign", "bad", chain(
+            replace_stmt(sm, g, "n_per_iter = np.array([len(logl_per_iter[t]) for t in range(len(beta))])", "n_per_iter = np.fromiter((len(logl_per_iter[t]) for t in range(len(beta))), dtype=int, count=len(beta))"),
+            replace_expr(sm, g, "b + log_mixture_weights[None, :]", "b - log_mixture_weights[None, :]")), ["C04.f"], quick=True),
         Variant("f-mixture-weight-sign", "bad", replace_expr(sm, g, "b + log_mixture_weights[None, :]", "b - log_mixture_weights[None, :]"), ["C04.f"], quick=True),
         Variant("f-denominator-added", "bad", replace_stmt(sm, g, "logw = A - B", "logw = A + B"), ["C04.f"], quick=True),
         Variant("f-logz-sign", "bad", replace_expr(sm, g, "logl_all[:, None] * beta[None, :] - logz_iter[None, :]", "logl_all[:, None] * beta[None, :] + logz_iter[None, :]"), ["C04.f"]),
